@@ -255,6 +255,8 @@ namespace bloch::runtime {
         // Class runtime metadata and heap tracking
         std::unordered_map<std::string, std::shared_ptr<RuntimeClass>> m_classTable;
         std::vector<std::weak_ptr<Object>> m_heap;
+        // References that collected garbage held to objects still in use (see runCycleCollector).
+        std::vector<std::shared_ptr<Object>> m_limbo;
         RuntimeClass* m_currentClassCtx = nullptr;
         bool m_inStaticContext = false;
         bool m_inConstructor = false;
